@@ -15,11 +15,11 @@ import (
 // Program is the loaded repository: type-checked packages and SSA of the working tree.
 type Program struct {
 	selfInsts map[*types.Named]types.Type
-	Prog  *ssa.Program
-	Pkg   *ssa.Package
-	TPkg  *types.Package
-	PPkg  *packages.Package
-	Funcs map[string]*ssa.Function // by RelString name, including anonymous functions
+	Prog      *ssa.Program
+	Pkg       *ssa.Package
+	TPkg      *types.Package
+	PPkg      *packages.Package
+	Funcs     map[string]*ssa.Function // by RelString name, including anonymous functions
 }
 
 func loadRepo(dir string) (*Program, error) {
